@@ -6,6 +6,7 @@ for _f in ("fq", "fr", "fp"):
     REGISTRY[f"ops_{_f}"] = ("ops", _f)
     REGISTRY[f"wrap64_{_f}"] = ("wrap64", _f)
     REGISTRY[f"fieldx_{_f}"] = ("fieldx", _f)
+    REGISTRY[f"wrap32_{_f}"] = ("wrap32", _f)
 
 _CACHE = {}
 
